@@ -162,9 +162,11 @@ def run(ctx):
                     and n.args and isinstance(n.args[0], ast.Constant):
                 consumed.add(n.args[0].value)
     produced = set(groups)
-    for n in ast.walk(fs.node):
-        if isinstance(n, ast.Subscript) and isinstance(n.ctx, ast.Store) and isinstance(n.slice, ast.Constant):
-            produced.add(n.slice.value)
+    from rules.common import with_helpers as _wh
+    for pf in _wh(prog, fs, prog.cls('tbutils.ParsedException')):       # from_string and the private helpers it calls
+        for n in ast.walk(pf.node):
+            if isinstance(n, ast.Subscript) and isinstance(n.ctx, ast.Store) and isinstance(n.slice, ast.Constant):
+                produced.add(n.slice.value)
     ctx.ob('T12.keys', ts.fq, 'every frame key to_string reads is produced by from_string', consumed <= produced, loc=ts.loc,
            detail='reads %s, produced %s' % (sorted(consumed), sorted(produced)))
     # header literal
